@@ -31,6 +31,10 @@ import (
 //	[.., +nValEnum)       values/chain/k[+retry]  the 1928 enumerated chains again with such results
 //	[.., +nConcSingle)    concurrent/<kind>  one wrapped handler, 2..6 calls in flight with different messages (concurrent.go)
 //	[.., +nConcChain)     concurrent/chain[+retry]  the same for chains of 2..3 distinct middlewares, 35% with a Retry layer
+//	[.., +nErrSingle)     errshapes/IgnoreErrors  IgnoreErrors alone, handler errors in every wrapper shape (errshape.go)
+//	[.., +nErrCompose)    errshapes/compose  IgnoreErrors with Retry / Recoverer in every order, two IgnoreErrors layers
+//	[.., +nErrEnum)       errshapes/chain  the 689 enumerated chains that contain IgnoreErrors, with such errors
+//	[.., +nErrNilCause)   errshapes/nil-cause  (0 cases unless genNilCause) errors of a Cause()-capable type without a cause
 const (
 	chainsPerCase  = 8
 	singleKinds    = 8
@@ -50,6 +54,9 @@ type layout struct {
 	nValSingle, nValEnum, nConcSingle, nConcChain int
 	valPerKind, valScriptsChain                   int
 	concPerKind, concRounds                       int
+
+	nErrSingle, nErrCompose, nErrEnum, nErrNilCause int
+	errScriptsCompose, errScriptsChain              int
 }
 
 func layoutFor(tier string) layout {
@@ -74,6 +81,13 @@ func layoutFor(tier string) layout {
 		concPerKind:     vlib.TierN(tier, 4, 60),
 		concRounds:      vlib.TierN(tier, 6, 10),
 		nConcChain:      vlib.TierN(tier, 96, 6000),
+
+		nErrSingle:        vlib.TierN(tier, 6, 120),
+		nErrCompose:       vlib.TierN(tier, 8, 240),
+		nErrEnum:          errEnumBlocks(),
+		nErrNilCause:      nilCauseCases(tier),
+		errScriptsCompose: vlib.TierN(tier, 4, 20),
+		errScriptsChain:   vlib.TierN(tier, 4, 60),
 	}
 	l.nSingle = singleKinds * l.singlePerKind
 	l.nCtxSingle = singleKinds * l.ctxPerKind
@@ -84,7 +98,8 @@ func layoutFor(tier string) layout {
 
 func (l layout) total() int {
 	return l.nSingle + l.nEnum + l.nRandom + l.nDelay + l.nThrottle + l.nArrivals + l.nCtxSingle + l.nCtxEnum + l.nCtxRandom +
-		l.nValSingle + l.nValEnum + l.nConcSingle + l.nConcChain
+		l.nValSingle + l.nValEnum + l.nConcSingle + l.nConcChain +
+		l.nErrSingle + l.nErrCompose + l.nErrEnum + l.nErrNilCause
 }
 
 func init() {
@@ -132,10 +147,20 @@ func init() {
 			"All barrier waits are conditional (filled, or process quiescent, or watchdog: released and counted in concurrent_barrier_released_unfilled); verdicts never depend on whether a barrier filled. " +
 			"Data races with a watermill frame are violations (clause data-race): the middlewares are called through function variables so that their closures keep their own names in race reports. " +
 			"A concurrent case is non-trivial when an effect was exercised and (chains without Retry) at least one round had all its handlers in flight at once. " +
+			"errshapes classes (which errors are 'listed' for IgnoreErrors): the unchanged source stores the texts of the list entries and compares them with the text of the error's github.com/pkg/errors Cause, i.e. it follows Cause() methods - and only those - to the innermost error; " +
+			"the model re-states exactly that rule (causeOf) and the generator builds handler errors as a base error under 0..3 wrappers: base = the very list entry / one of four errors that the list draw put on the list or not / a never-listed error / a new error value with exactly a listed text / " +
+			"a text of which a listed text is a proper prefix or suffix / a listed text minus its last byte / a custom type / context.DeadlineExceeded; wrappers = pkg/errors Wrap, WithStack, WithMessage (Cause and Unwrap), Cause()-only types (pointer and by-value), Unwrap()-only types, fmt.Errorf %w, " +
+			"errors.Join of one / two errors (either order), fmt.Errorf with two %w, Cause()-only and Unwrap()-only wrappers with a text of their own (a listed text / the wrapped error's text / unrelated), a type whose Cause() and Unwrap() lead to different errors, a type with only an Is method; " +
+			"lists hold 1..3 base errors, and (60%) 1..3 plain entries whose text is the full text of a wrapper around a base error (matched iff that wrapper has no Cause method). " +
+			"errshapes/IgnoreErrors: IgnoreErrors alone, 60 scripts per case; errshapes/compose: [I], Retry/Recoverer/IgnoreErrors in all orders (2 and 3 layers), [I>I], [Retry>I>I], [Retry>I>Retry], 4 (quick) / 20 (thorough) scripts each per case; " +
+			"errshapes/chain: the 689 enumerated chains that contain IgnoreErrors, 4 (quick) / 60 (thorough) scripts each. Judged by the chain oracle: listed -> success with the outputs, everything else -> the identical error value (ignore-errors / error-identity), Retry's attempt count (retry-attempts). " +
+			"Counters errshape_differs_from_{unwrap_walk,errors_is,outer_text,substring} count (IgnoreErrors layer, error) pairs on which a neighbouring rule would decide differently. An errshapes case is non-trivial when an effect was exercised and a wrapped / near-listed error was generated. " +
 			"A case is non-trivial when at least one documented effect was exercised (id copied, panic recovered, error ignored, ack-at-start seen, deadline seen, delay applied, retry made, rate wait seen); " +
 			"distinct = distinct (chains, parameters, script shapes, observed results) hashes.",
 		Assumptions: []string{
-			"IgnoreErrors follows the documented pkg/errors Cause rule; %w wrappers around listed errors are not generated",
+			"IgnoreErrors: 'listed' = the text of the error's pkg/errors Cause (Cause() methods only) equals the text of a list entry, as the unchanged source decides it; in all but the errshapes classes %w wrappers around listed errors are not generated",
+			"errshapes classes: list entries are plain errors without a Cause method (a listed error that is itself a pkg/errors wrapper is never matched by the source's rule; not generated); errors of a Cause()-capable type whose Cause() returns nil are not generated " +
+				"(the pinned IgnoreErrors dereferenced the nil Cause: fixed in ff39474; class errshapes/nil-cause, clause ignore-nil-cause); Cause chains are finite; Error methods do not panic",
 			"DelayOnError configurations have InitialInterval <= MaxInterval and InitialInterval >= 100ms (so ns truncation stays far below 1 ppm); after a success the next message is a fresh one",
 			"Timeouts that may expire (2..6 ms, handler waits for the deadline) are only generated when no Timeout is outside a Retry; all other Timeouts are >= 1 min",
 			"the circuit breaker stays closed (default settings up to 5 handler calls, otherwise ReadyToTrip=never); a state change makes the case inconclusive",
@@ -203,5 +228,21 @@ func run(e *vlib.Env) vlib.Result {
 	if i < l.nConcSingle {
 		return runConcSingle(e, kind(i/l.concPerKind), l.concRounds)
 	}
-	return runConcChain(e, l.concRounds)
+	i -= l.nConcSingle
+	if i < l.nConcChain {
+		return runConcChain(e, l.concRounds)
+	}
+	i -= l.nConcChain
+	if i < l.nErrSingle {
+		return runErrSingle(e)
+	}
+	i -= l.nErrSingle
+	if i < l.nErrCompose {
+		return runErrCompose(e, l.errScriptsCompose)
+	}
+	i -= l.nErrCompose
+	if i < l.nErrEnum {
+		return runErrEnum(e, i, l.errScriptsChain)
+	}
+	return runErrNilCause(e)
 }
